@@ -219,6 +219,11 @@ impl Oracle {
                     if !exp[delivered.len().min(exp.len())..].starts_with(&b) { return format!("FAIL fill_buf returned {} which is not what follows the {} bytes delivered so far (expected RBSP {})", h, delivered.len(), hex(&exp)); }
                     if b.is_empty() { if !(complete && valid && delivered.len() == exp.len()) { return "FAIL fill_buf reported the end before the end of a complete valid NAL".into(); } }
                     last_fill = b;
+                } else if op.starts_with('x') {
+                    // read_exact: exactly the n bytes that follow
+                    let n: usize = op[1..].parse().unwrap();
+                    if b.len() != n { return format!("FAIL read_exact({}) returned {} bytes", n, b.len()); }
+                    delivered.extend_from_slice(&b); last_fill.clear();
                 } else {
                     let n: usize = op[1..].parse().unwrap();
                     if b.is_empty() && n > 0 && !(complete && valid && delivered.len() == exp.len()) { return "FAIL read reported the end before the end of a complete valid NAL".into(); }
@@ -235,8 +240,20 @@ impl Oracle {
                     other => return format!("FAIL drain ended with {}", other),
                 }
             } else if let Some(k) = o.strip_prefix('c') { let k: usize = k.parse().unwrap(); let k = k.min(last_fill.len()); delivered.extend(last_fill.drain(..k)); }
+            else if op.starts_with('x') && (o == "err:WouldBlock" || o == "err:InvalidData") {
+                // a read_exact that fails has taken an unknown number of bytes with it: the bookkeeping of this oracle ends here
+                if o == "err:WouldBlock" && complete { return "FAIL WouldBlock on a complete NAL".into(); }
+                if o == "err:InvalidData" && valid { return "FAIL InvalidData reported for a payload without forbidden sequences".into(); }
+                return "ok".into();
+            }
             else if o == "err:InvalidData" { saw_invalid = true; if valid { return "FAIL InvalidData reported for a payload without forbidden sequences".into(); } }
             else if o == "err:WouldBlock" { if complete { return "FAIL WouldBlock on a complete NAL".into(); } if !valid || delivered.len() + last_fill.len() < exp.len() { if valid { return "FAIL WouldBlock before the buffered data was exhausted".into(); } } }
+            else if o == "err:Eof" && op.starts_with('x') {
+                // read_exact ran into the end: legitimate only on a complete valid NAL with fewer bytes left than asked for; the bytes it took are gone
+                let n: usize = op[1..].parse().unwrap();
+                if !(complete && valid && exp.len() - delivered.len().min(exp.len()) < n) { return format!("FAIL read_exact({}) reported the end with {} bytes still to come", n, exp.len().saturating_sub(delivered.len())); }
+                delivered = exp.clone(); last_fill.clear();
+            }
             else if o.starts_with("err:") { return format!("FAIL unexpected error {}", o); }
             if !exp.starts_with(&delivered) { return format!("FAIL delivered {} is not a prefix of the expected RBSP {}", hex(&delivered), hex(&exp)); }
         }
@@ -335,6 +352,9 @@ impl Oracle {
                 else if *op == "more" { Ok(rest.iter().skip(1).any(|b| *b).to_string()) }
                 else if *op == "finish" { dead = true; if rest.is_empty() { Err("Io(finish,Eof)".into()) } else if rest[1..].iter().any(|b| *b) { Err("Remaining".into()) } else if rest[0] { Ok("ok".into()) } else { Err("Io(finish,Eof)".into()) } }
                 else if *op == "seifinish" { dead = true; if rest.is_empty() { Ok("ok".into()) } else if rest[0] && !rest[1..].iter().any(|b| *b) { Ok("ok".into()) } else { Err("Remaining".into()) } }
+                else if *op == "rd" {
+                    // the underlying reader is lent out only on a byte boundary; one byte is consumed through it if there is one
+                    if pos % 8 != 0 { Ok("rd:unaligned".into()) } else if rest.len() >= 8 { pos += 8; Ok("rd:1".into()) } else if incomplete { dead = true; Ok("rd:err".into()) } else { Ok("rd:0".into()) } }
                 else if let Some(n) = op.strip_prefix("skip") { let n: usize = n.parse().unwrap(); if rest.len() < n { Err("Io(f,Eof)".into()) } else { pos += n; Ok("ok".into()) } }
                 else { let n: usize = op[1..].parse().unwrap(); if rest.len() < n { Err("Io(f,Eof)".into()) } else { let mut v = 0u64; for b in &rest[..n] { v = v * 2 + *b as u64; } pos += n; Ok(v.to_string()) } };
             let (mut w, mut is_err) = match want { Ok(s) => (s, false), Err(s) => (s, true) };
